@@ -37,6 +37,9 @@ FreshState(t) ==
     /\ viol' = {}
     /\ lastRet' = [c \in Callers |-> <<>>]
     /\ hist' = <<>>
+    \* state after construction and the explicit Start: with the repaired Left() the constructor's probes change nothing
+    /\ cst' = [n \in {m \in 1..Len(t.kind) : t.kind[m] = "comp"} |-> t.mode = "explicit" /\ n \in InitStartChain(t)]
+    /\ probes' = <<>> /\ probing' = FALSE
 
 TraceInit ==
     /\ l = 1
@@ -51,6 +54,7 @@ TraceInit ==
     /\ snap = [c \in Callers |-> 0]
     /\ fired = FALSE /\ observedEnd = FALSE /\ viol = {} /\ lastRet = [c \in Callers |-> <<>>]
     /\ hist = <<>>
+    /\ cst = <<>> /\ probes = <<>> /\ probing = FALSE
 
 TraceReset ==
     /\ l <= Len(Trace) /\ Ev.ev = "reset"
